@@ -125,6 +125,8 @@ ANTICIPATED = [
     ('a_{1}+zz', 'UndefinedVariable'), ('F_{2}(1)', 'UndefinedFunction'),
     # names reserved for the author: instructor-only variables and sibling inputs, also when the
     # submission is character for character the author's own answer
+    ('@braces:(1,2}', 'InvalidInput'), ('@braces:{1,2)', 'InvalidInput'), ('@braces:<1,2}', 'InvalidInput'),
+    ('@bracesexpect:(1,2}', 'ConfigError'), ('@bracesexpect:{1,2>', 'ConfigError'),
     ('@instructor:x*c', 'UndefinedVariable'), ('@instructor:c', 'UndefinedVariable'),
     ('@instructor:x * c', 'UndefinedVariable'), ('@sibling:sibling_2+1', 'UndefinedVariable'),
     ('@sibling:sibling_2 + 1', 'UndefinedVariable'),
@@ -906,6 +908,13 @@ class Run(object):
                 self.last_good_reg[gid] = copy.deepcopy(self.reg)
             elif ev.get('ecls') == 'invalid':
                 self.bump(self.probes, 'invalid expect delivered')
+                if 'R1' in self.judges and 'headroom' not in ev and \
+                        not (o['k'] == 'exc' and o['fam'] == 'config'):
+                    # validity of an expect value is known by construction, independently of any
+                    # instance the library could offer for comparison
+                    self.violate('expect-validity', i, cls,
+                                 'expect %r is invalid for this %s by construction, but the call gave %s'
+                                 % (expect, cls, short(o)))
                 if self.last_good.get(gid) is not None:
                     self.bump(self.probes, 'invalid expect after a good one')
         if o['k'] == 'exc':
@@ -1049,7 +1058,16 @@ class Run(object):
         """An anticipated problem keeps its specific error class (debug off), whatever ran before."""
         m = self.lib.mitx
         text, want = ANTICIPATED[ev['case']]
-        if text.startswith('@instructor:'):
+        expect = None
+        if text.startswith('@braces:'):
+            text = text.split(':', 1)[1]
+            g = m.IntervalGrader(answers='{1,2}', opening_brackets='{[', closing_brackets='}]')
+            inp = text
+        elif text.startswith('@bracesexpect:'):
+            text = text.split(':', 1)[1]
+            g = m.IntervalGrader(opening_brackets='{[', closing_brackets='}]')
+            inp, expect = '{1,2}', text
+        elif text.startswith('@instructor:'):
             text = text.split(':', 1)[1]
             g = m.FormulaGrader(answers='x*c', variables=['x', 'c'], instructor_vars=['c'])
             inp = text
@@ -1076,7 +1094,7 @@ class Run(object):
             g = m.ListGrader(answers=['1', '[1,2]'], subgraders=m.MatrixGrader(max_array_dim=2), ordered=True)
             inp = ['1', text]
         seams.seed_lib(ev['subseed'])
-        o = outcome(g, None, inp)
+        o = outcome(g, expect, inp)
         self.bump(self.probes, 'anticipated problem submitted')
         if 'family' in self.judges and not g.config.get('debug'):
             if not (o['k'] == 'exc' and o['cls'] == want):
